@@ -104,6 +104,9 @@ def scenario(params, ch):
     opts = order.split("|")[1:]     # "cs|dt60": 60 Hz frames; "cs|ka0.5": keep-alive (= resend delay) 0.5 s on both ends
     order = order.split("|")[0]
     ka = next((float(o[2:]) for o in opts if o.startswith("ka")), None)
+    hist = next((int(o[4:]) for o in opts if o.startswith("hist")), None)
+    if hist:
+        Packet.setMTU(hist)       # the process configured another MTU before (setMTU writes process-wide state)
     try:
         w = World(order=order, latency=latency, chooser=ch, monitors=[mon, watch], mtu=mtu, dt=(1.0 / 60 if "dt60" in opts else 1.0 / 64),
                   server_cfg=({"setKeepAliveInterval": ka} if ka else None), client_cfg=({"setKeepAliveInterval": ka} if ka else None))
@@ -218,6 +221,8 @@ def scenario(params, ch):
         for v in mon.violations:
             ch.flag(*v)
         w.close()
+        if hist:
+            Packet.setMTU(1500)
 
 
 # ---------------------------------------------------------------------------
@@ -406,6 +411,11 @@ def params_list(tier):
                     if tier == "quick" and (b[2] != 200 or mtu != 1500):
                         continue
                     out.append((api, size, mtu, ("drop", "delay8"), b, "frag", "cs", 1, 10))
+    # the MTU was configured to something else before (512 then 1000, 512 then 512, 576 then 800, 1000 then 512)
+    for api in ("c.send_guaranteed", "s.send_guaranteed"):
+        for h, mtu in ((512, 1000), (512, 512), (576, 800), (1000, 512), (512, 1095)):
+            for size in (caps(mtu)[0] + 1, 3 * caps(mtu)[1] + 17, 40):
+                out.append((api, size, mtu, ("drop",), None, False, "cs|hist%d" % h, 1, 4))
     # an owner stall longer than the message timeout right after the first transmission
     for api in APIS:
         for size in (0, 40, 1434, 1435, 2500):
